@@ -217,6 +217,17 @@ def desc(body, role, depth=0):
             m_ = strip_role(x[3][0])
             if isinstance(m_, tuple) and m_[0] == "param" and path[:2] == ["@Some", "0"]:
                 return ("get", m_[1], desc(body, x[3][1], depth + 1))
+        if x[1] in ("unwrap_or_else", "unwrap_or") and len(x[3]) == 2 and not path:
+            g_ = strip_role(x[3][0])
+            alt = strip_role(x[3][1])
+            alt_fresh = (isinstance(alt, tuple) and ((alt[0] == "fnconst" and str(alt[1]).endswith("Slot::fresh")) or (alt[0] == "call" and alt[1] == "fresh")))
+            if not alt_fresh and isinstance(alt, tuple) and alt[0] == "agg" and alt[1] in body.crate.bodies:
+                ar = strip_role(body.crate.bodies[alt[1]].role_of_local(0))
+                alt_fresh = isinstance(ar, tuple) and ar[0] == "call" and ar[1] == "fresh"
+            if isinstance(g_, tuple) and g_[0] == "call" and g_[1] == "get" and len(g_[3]) == 2 and alt_fresh:
+                m_ = strip_role(g_[3][0])
+                if isinstance(m_, tuple) and m_[0] == "param":
+                    return ("get_or_fresh", m_[1], desc(body, g_[3][1], depth + 1))
     if isinstance(x, tuple) and x[0] == "param":
         owner = _owner_of_param(body, x[1])
         if owner is not None and owner.kind == "Closure":
@@ -320,6 +331,18 @@ def q3(ctx):
         ctx.check(visits_all_of(crate, b, "self"), "iterates-self:" + name, "%s visits every pair of self" % name, "%s does not visit every pair of self" % name, where_of(b))
         pairs = result_pairs(crate, b)
         nget = 0
+        expanded = []
+        for k, v, sub, bb, c in pairs:
+            if v[0] == "get_or_fresh":
+                # one insert whose value is other.get(y) or, only when that is None, a fresh slot
+                expanded.append((k, ("get", v[1], v[2]), sub, bb, c))
+                ctx.check(fresh, "fresh-only-in-fresh-variant:" + name, "fresh fill-in only in compose_fresh", "%s invents fresh slots" % name, where_of(sub, bb))
+                ctx.ok("fresh-on-miss-only:" + name, "the fresh slot is the `unwrap_or_else` alternative of other.get(y): used only on a miss", where_of(sub, bb))
+                ctx.check(k == ("elem", "self", "0"), "key-from-own-key:%s:fresh" % name, "%s inserts under self's key x" % name, "%s puts a pair under key %s instead of self's own key" % (name, k), where_of(sub, bb))
+            else:
+                expanded.append((k, v, sub, bb, c))
+        npairs = len(pairs) + sum(1 for p_ in pairs if p_[1][0] == "get_or_fresh")
+        pairs = expanded
         for k, v, sub, bb, c in pairs:
             ctx.check(k == ("elem", "self", "0"), "key-from-own-key:%s:%s" % (name, "fresh" if v == ("fresh",) else "get"), "%s inserts under self's key x" % name,
                       "%s puts a pair under key %s instead of self's own key" % (name, k), where_of(sub, bb))
@@ -333,7 +356,7 @@ def q3(ctx):
                 ok = v == ("get", "other", ("elem", "self", "1"))
                 ctx.check(ok, "value-is-other-of-own-value:" + name, "%s maps x to other.get(y) for self's pair (x, y) (first self, then other)" % name,
                           "%s maps a key to %s; it must be other.get(self's value): the composition order / components are mixed up" % (name, v), where_of(sub, bb))
-        ctx.check(nget == 1 and len(pairs) == (2 if fresh else 1), "pair-sources:" + name, "%s has the expected pair sources" % name, "%s has %d pair sources (%s)" % (name, len(pairs), [(k, v) for k, v, _, _, _ in pairs]), where_of(b))
+        ctx.check(nget == 1 and npairs == (2 if fresh else 1), "pair-sources:" + name, "%s has the expected pair sources" % name, "%s has %d pair sources (%s)" % (name, len(pairs), [(k, v) for k, v, _, _, _ in pairs]), where_of(b))
     cm = m(crate, "compose")
     r = strip_role(cm.role_of_local(0))
     ctx.check(r[0] == "call" and r[1] == "compose_partial" and [strip_role(x) for x in r[3]] == [("param", "self"), ("param", "other")], "compose-delegates", "compose = compose_partial(self, other) (+ ghost assertion)",
@@ -358,13 +381,17 @@ def q3(ctx):
     # get
     g = m(crate, "get")
     r = g.role_of_local(0)
-    ok = role_mentions_call(r, "search") and role_mentions_call(r, "ok")
+    ok = role_mentions_call(r, "search")
     cl = [x for x in role_walk(r) if isinstance(x, tuple) and x[0] == "agg" and x[1] in crate.bodies]
     okc = False
     for x in cl:
         cb = crate.bodies[x[1]]
         rr = strip_role(cb.role_of_local(0))
         okc = okc or (isinstance(rr, tuple) and rr[0] == "field" and rr[2] == "1")
+    # match form: the Some payload is `.1` of the pair at the index search() found
+    for x in role_walk(r):
+        if isinstance(x, tuple) and x[0] == "field" and x[2] == "1" and role_mentions_field(x[1], "map") and role_mentions_call(x[1], "search"):
+            okc = True
     ctx.check(ok and okc, "get-is-search-then-value", "get(l) = search(l).ok().map(|i| map[i].1)", "get is %s" % role_str(r)[:100], where_of(g))
     ix = [b for b in crate.by_name.get("index", []) if b.impl_self == SM and (b.impl_trait or "").endswith("ops::Index")]
     if ix:
@@ -385,6 +412,15 @@ def q3(ctx):
     for d in none_defs:
         conds = C.conditions_at(tu, d["bb"])
         ok = any(cond[0] == "ne" and (role_mentions_call(cond[1], "get") or role_mentions_call(cond[2], "get")) for e, cond in conds)
+        # combinator form: out.get(x).is_some_and(|z| y != z)
+        for e, cond in conds:
+            r_ = strip_role(cond[1]) if cond[0] == "true" and len(cond) > 1 else None
+            if isinstance(r_, tuple) and r_[0] == "call" and r_[1] == "is_some_and" and len(r_[3]) == 2 and role_mentions_call(r_[3][0], "get"):
+                cl_ = strip_role(r_[3][1])
+                if cl_[0] == "agg" and cl_[1] in crate.bodies:
+                    cr = crate.bodies[cl_[1]].role_of_local(0)
+                    if any(isinstance(y, tuple) and ((y[0] == "call" and y[1] == "ne") or (y[0] == "bin" and y[1] == "Ne")) for y in role_walk(cr)):
+                        ok = True
     ctx.check(len(none_defs) == 1 and ok, "try-union-none-on-conflict", "try_union returns None exactly under 'key present with a different value'", "try_union's None branch is not guarded by a value conflict", where_of(tu))
     ins = loop_inserts(crate, tu)
     ok = len(ins) == 1 and comp(ins[0][1]) == ("other", "0") and comp(ins[0][2]) == ("other", "1") and role_mentions_call(tu.role_of_operand(ins[0][0].args[0]), "clone")
@@ -405,7 +441,9 @@ def q3(ctx):
     trues = [d for d in ib.defs().get(0, []) if d["kind"] == "assign" and ib.role_of_rvalue(d["rv"]) == ("const", "true")]
     ctx.check(len(falses) == 1 and ok and len(trues) == 1, "is-bijection", "is_bijection: false on a repeated value, true after all pairs", "is_bijection's structure changed", where_of(ib))
     ck = [c for c in ib.calls if c.callee and c.callee.name in ("contains", "insert") and not ib.blocks[c.bb]["cleanup"]]
-    okv = all(comp(strip_role(ib.role_of_operand(c.args[1])))[1] == "1" or role_str(ib.role_of_operand(c.args[1])).endswith(".1") for c in ck) and len(ck) == 2
+    def _is_value(r_):
+        return comp(strip_role(r_))[1] == "1" or role_str(r_).endswith(".1") or ((role_mentions_call(r_, "values_immut") or role_mentions_call(r_, "values")) and not role_mentions_call(r_, "keys"))
+    okv = all(_is_value(ib.role_of_operand(c.args[1])) for c in ck) and len(ck) == 2
     ctx.check(okv, "is-bijection-on-values", "is_bijection tracks the value component", "is_bijection tracks %s" % [role_str(ib.role_of_operand(c.args[1])) for c in ck], where_of(ib))
     # contains_key / len / is_empty
     ckb = m(crate, "contains_key")
